@@ -91,12 +91,12 @@ class C07(Property):
             feats = {"exec": 4} if rng.random() < 0.35 else ({"cart": 4, "gather": 6} if rng.random() < 0.25 else ({"loop": 3} if rng.random() < 0.25 else None))
             spec = wfgen.gen_spec(rng, size=rng.randint(2, 12), features=feats)
             failing = rng.random() < 0.33
-            fspec = wfgen.choose_failure(rng, spec) if failing else None
+            fspec = wfgen.choose_failure(rng, spec, loop_upstream_prob=0.0) if failing else None   # loop hangs belong to C04
             if fspec is None:
                 failing = False
             run_spec = fspec or spec
             seeds = [rng.randrange(1 << 30) for _ in range(k)]
-            runs = wfcheck.run_schedules(run_spec, seeds, ctx.scratch, timeout=30.0)
+            runs = wfcheck.run_schedules(run_spec, seeds, ctx.scratch, timeout=30.0, confirm_hangs=not failing)
             nrows = [len(r.get("db", {}).get("provenance", [])) for r in runs]
             key = ("wf", json.dumps(run_spec, sort_keys=True)) if max(nrows, default=0) >= 4 else None
             ctx.case({"spec": run_spec, "failing": failing, "provenance_rows": nrows}, key, ("fail+" if failing else "ok+") + wfcheck.spec_bucket(spec))
